@@ -327,6 +327,16 @@ theorem NClaim.childWakeNextPc {s s1 : State} {t : Tid} {pos : CPos} {f : Frame}
     · exact NClaim.chdStored hc hn rfl rfl
     · exact NClaim.chdStored hc hn rfl rfl
 
+/-- Another scan of the children (children were adopted during WAIT_FOR_NO_CHILDREN). -/
+theorem NClaim.childLoopStartPc {s : State} {t : Tid} {pos : CPos} {f : Frame}
+    {rest : List Frame} {top : Top} (cs : List NoteId)
+    (hc : NClaim s t (.chd pos (f :: rest) top))
+    (hn : s.Notified f.note) : NClaim s t (childLoopStartPc cs f rest top) := by
+  unfold Note.childLoopStartPc
+  split
+  · exact NClaim.chdStored hc hn rfl rfl
+  · exact NClaim.chdStored hc hn rfl rfl
+
 /-- A child has been locked and is not disconnecting: a new activation. -/
 theorem NClaim.push {s : State} {t : Tid} {c : NoteId} {stk : List Frame} {top : Top}
     (hc : NClaim s t (.chd (.lockChildRet c) stk top)) :
